@@ -10,8 +10,12 @@ import (
 	"context"
 	"errors"
 	"fmt"
+	"io"
 	"strings"
 	"testing"
+
+	"github.com/a-h/templ"
+	templruntime "github.com/a-h/templ/runtime"
 )
 
 var verifErr = errors.New("injected writer failure")
@@ -87,6 +91,23 @@ func TestVerifReplayC10(t *testing.T) {
 				fmt.Printf("REPLAY-CONFIRMED after a render that failed at byte %d, a render to a fresh writer gave err=%v and %q\n", accept, err, fresh.String())
 				return
 			}
+		}
+	}
+	// hand-written wrappers never swallow the error of what they wrap: a failing child inside templ.Flush(), rendered
+	// into the render buffer the way generated code does
+	{
+		childErr := errors.New("the child failed")
+		failing := templ.ComponentFunc(func(ctx context.Context, w io.Writer) error {
+			io.WriteString(w, "<i>partial</i>")
+			return childErr
+		})
+		var sink bytes.Buffer
+		buf, _ := templruntime.GetBuffer(&sink)
+		err := templ.Flush().Render(templ.WithChildren(templ.InitializeContext(ctx), failing), buf)
+		templruntime.ReleaseBuffer(buf)
+		if !errors.Is(err, childErr) {
+			fmt.Printf("REPLAY-CONFIRMED templ.Flush() around a child that fails returns %v: the child's error is lost (the enclosing template would carry on and Render would return nil for a partial document %q)\n", err, sink.String())
+			return
 		}
 	}
 	// single faults (the writer recovers afterwards) on a document with a string larger than the 4KB buffer:
